@@ -360,6 +360,12 @@ func scanLoops(ld *loader) ([]loopFact, error) {
 						lf.class, lf.sleeps = classifyBody(x.Body)
 						out = append(out, lf)
 						k++
+					case *ast.BranchStmt:
+						// a backward jump is a loop as well
+						if x.Tok.String() == "goto" && x.Label != nil {
+							out = append(out, loopFact{dir: dir, fn: name, k: k, pos: p.pos(x), bound: "goto", header: "goto " + x.Label.Name, class: "opaque"})
+							k++
+						}
 					case *ast.RangeStmt:
 						lf := loopFact{dir: dir, fn: name, k: k, pos: p.pos(x), bound: "range", header: "range " + shortN(p.fset, x.X, 80)}
 						lf.class, lf.sleeps = classifyBody(x.Body)
